@@ -17,6 +17,10 @@ def unit_to_sop(u: bytes):
     """map one unit's text to its Coq sop (or a failing sop with the expected error)"""
     t = u.strip().upper()
     t = t.lstrip(b":")
+    if t in AFTER:
+        # the handler runs first (and keeps its effect), then the dispatcher finds the leftover
+        # parameter: modelled as the valid unit followed by a failing one
+        return unit_to_sop(AFTER[t]) + "; SFail (std_error ParameterNotAllowed)"
     if t in INVALID:
         return f"SFail (std_error {INVALID[t]})"
     m = re.fullmatch(rb"STAT(?:US)?:(OPER(?:ATION)?|QUES(?:TIONABLE)?)(?::(EVEN(?:T)?|COND(?:ITION)?|ENAB(?:LE)?|NTR(?:ANSITION)?|PTR(?:ANSITION)?))?(\?)?(?: (\d+))?", t)
@@ -63,13 +67,16 @@ INVALID = {
     b"*CLS?": "UndefinedHeader", b"*ESR": "UndefinedHeader", b"*STB": "UndefinedHeader", b"*RST?": "UndefinedHeader",
     b"STAT:PRES?": "UndefinedHeader", b"SYST:ERR": "UndefinedHeader", b"STAT:OPER:COND 1": "UndefinedHeader",
     b"*ESE": "MissingParameter", b"*SRE": "MissingParameter", b"STAT:QUES:ENAB": "MissingParameter",
-    b"*ESE 1,2": "ParameterNotAllowed", b"*CLS 1": "ParameterNotAllowed", b"*ESR? 1": "ParameterNotAllowed",
-    b"SYST:ERR? 5": "ParameterNotAllowed", b"STAT:OPER:ENAB 1,2": "ParameterNotAllowed",
-    b"*ESE \"X\"": "DataTypeError", b"*SRE (1)": "DataTypeError", b"STAT:OPER:PTR #15A": "DataTypeError", b"*ESE ABC": "DataTypeError",
+    b"*ESE \"X\"": "DataTypeError", b"*SRE (1)": "DataTypeError", b"STAT:OPER:PTR #15ABCDE": "DataTypeError", b"*ESE ABC": "DataTypeError",
     b"*ESE 256": "DataOutOfRange", b"*SRE -1": "DataOutOfRange", b"*ESE 1E3": "DataOutOfRange", b"STAT:OPER:ENAB 65536": "DataOutOfRange",
     b"STAT:QUES:NTR -1": "DataOutOfRange", b"*ESE 5V": "SuffixNotAllowed",
     b"*ESE 1 2": "InvalidSuffix",
 }
+
+# units with one data element too many: the handler has run when -108 is raised
+AFTER = {b"*ESE 1,2": b"*ESE 1", b"*CLS 1": b"*CLS", b"*ESR? 1": b"*ESR?", b"SYST:ERR? 5": b"SYST:ERR?",
+         b"STAT:OPER:ENAB 1,2": b"STAT:OPER:ENAB 1", b"*SRE 255,0": b"*SRE 255", b"SYST:ERR:ALL? 1": b"SYST:ERR:ALL?",
+         b"*OPC 1": b"*OPC", b"STAT:QUES? 1": b"STAT:QUES?", b"STAT:PRES 0": b"STAT:PRES"}
 
 VALID_EVENTS = [b"*CLS", b"*RST", b"*WAI", b"*OPC", b"STAT:PRES"]
 
@@ -139,7 +146,9 @@ def reg_unit(rng, which=None):
     return base + what + b" %d" % rand_u16(rng)
 
 
-def common_unit(rng):
+def common_unit(rng, pool=None):
+    if pool:
+        return rng.choice(pool)
     k = rng.random()
     if k < 0.12: return b"*ESE %d" % rand_u8(rng)
     if k < 0.24: return b"*SRE %d" % rand_u8(rng)
@@ -157,10 +166,10 @@ def fail_unit(rng):
         if rng.random() < 0.2:
             ext = b',"' + bytes(rng.choice(b"extra info 7") for _ in range(rng.randint(0, 6))) + b'"'
         return b"*ERR %d" % code + ext
-    return rng.choice(list(INVALID.keys()))
+    return rng.choice(list(INVALID.keys()) + list(AFTER.keys()))
 
 
-def gen_history(rng, nsteps, weights):
+def gen_history(rng, nsteps, weights, common_pool=None):
     """weights: dict kind -> weight among reg, common, fail, cond, tst"""
     kinds = list(weights)
     steps = []
@@ -175,9 +184,21 @@ def gen_history(rng, nsteps, weights):
             units = []
             for j in range(nunits):
                 kk = k if j == 0 else rng.choices(["reg", "common", "fail"], [weights.get("reg", 1), weights.get("common", 1), weights.get("fail", 0.3)])[0]
-                u = reg_unit(rng) if kk == "reg" else common_unit(rng) if kk == "common" else fail_unit(rng)
+                u = reg_unit(rng) if kk == "reg" else common_unit(rng, common_pool) if kk == "common" else fail_unit(rng)
                 if j > 0 and not u.startswith((b"*", b":")):
                     u = b":" + u          # a later unit is relative unless it starts at the root
                 units.append(u)
             steps.append(msg_step(units, mav=rng.random() < 0.4, nl=rng.random() < 0.2))
     return "dev " + "|".join(steps)
+
+
+def obs_fields(s, keep):
+    """project a result line on the state fields named in keep (q, esr, ese, sre, o, u, h), keeping status and response"""
+    out = []
+    for step in s.split(" | "):
+        f = step.split(" ")
+        if len(f) < 3:
+            out.append(step); continue
+        st = ";".join(x for x in f[2].split(";") if x.split("=")[0] in keep)
+        out.append(f[0] + " " + f[1] + " " + st)
+    return " | ".join(out)
